@@ -58,6 +58,7 @@ REQUIRED_COUNTERS = ['decoders_constructed', 'decode_calls',
                      'decoders_with_numpy_error_rate',
                      'cells_at_error_rate_0_or_1',
                      'union_find_cells_on_larger_tori',
+                     'cells_with_non_default_decoder_options',
                      'same_process_deformation_variants']
 SHARD_TIMEOUT = {'quick': 900, 'thorough': 3600}
 
@@ -202,6 +203,19 @@ def plan(tier, seed):
                                     'rate': rate, 'nrand': nr, 'seed': seed,
                                     'tier': tier,
                                     'cost': per * (nr + 20) + 50})
+    # constructor options away from their defaults (a quick BP pass before
+    # OSD, the other BP rule, no OSD sweep)
+    for cls in allowed_classes(decs['BeliefPropagationOSDDecoder']):
+        size = SIZES_Q[cls][min(1, len(SIZES_Q[cls]) - 1)]
+        for kwargs in ({'max_bp_iter': 1}, {'max_bp_iter': 2, 'osd_order': 0},
+                       {'max_bp_iter': 5, 'bp_method': 'product_sum'},
+                       {'max_bp_iter': 0}):
+            tasks.append({
+                'decoder': 'BeliefPropagationOSDDecoder', 'cls': cls,
+                'size': list(size), 'code_def': [None, {}], 'noise': 'skew',
+                'noise_def': [None, {}], 'rate': 0.1, 'nrand': 8,
+                'decoder_kwargs': dict(kwargs), 'seed': seed, 'tier': tier,
+                'options_cell': True, 'cost': 600})
     # union-find on larger tori, where clusters merge, close on themselves
     # and wrap (rates up to the regime where half the syndromes do that)
     if 'UnionFindDecoder' in decs:
@@ -485,6 +499,8 @@ def run_cell(task, out):
         out.count('cells_at_error_rate_0_or_1')
     if task.get('large_uf'):
         out.count('union_find_cells_on_larger_tori')
+    if task.get('options_cell'):
+        out.count('cells_with_non_default_decoder_options')
     out.case(desc, nontrivial=nonzero_seen > 0, n=len(synds),
              sample=dict(desc, n=n, syndromes=len(synds)))
 
